@@ -148,7 +148,8 @@ func decExpected(f *model.Field) decExpect {
 		if fd.Kind() == protoreflect.MessageKind {
 			T := tname(gt.(*types.Pointer).Elem())
 			// what the reference does: continue the message already held by this member, else a new one
-			ex.alts[2] = fmt.Sprintf("%s := &%s{MERGED(%s)}; unmarshal(bytes -> MERGED(%s)); cursor=end", L, W, T, T)
+			mg := fmt.Sprintf("merged(%s as *%s.%s, new(%s))", L, W, f.GoName, T)
+			ex.alts[2] = fmt.Sprintf("%s := &%s{%s}; unmarshal(bytes -> %s); cursor=end", L, W, mg, mg)
 			break
 		}
 		v := decValue(fd.Kind(), tname(gt))
@@ -174,6 +175,7 @@ func decExpected(f *model.Field) decExpect {
 }
 
 var reAccum = regexp.MustCompile(`or\(prev\((\w+)\), ([^()]*(?:\[[^\]]*\])?)\)`)
+var reDefaulted = regexp.MustCompile(`ornew\(entry\(2: init=nil, set=new\((\w+)\)\), new\(\w+\)\)`)
 var reNilInit = regexp.MustCompile(`entry\(2: init=nil, set=new\((\w+)\)\)`)
 
 // RunDec decides DEC.* and UNK.default on every generated message type.
@@ -200,6 +202,8 @@ func RunDec(c *core.Ctx) {
 				probs = append(probs, "no rejection of field numbers <= 0")
 			}
 			c.Check(len(probs) == 0, "DEC.frame", m.Q()+" decode loop frame", "for iNdEx < l { tag varint; fieldNum, wireType; end-group and fieldNum<=0 rejected; switch }; trailing iNdEx > l check", strings.Join(probs, "; "), mpos, src)
+			c.Check(dm.HasDepth, "DEC.depth", m.Q()+" nesting budget", "the decoder returns an error when input.Depth <= 0, before reading anything",
+				"the decoder does not test input.Depth: message nesting is followed without a bound (each nested decode would restart or ignore the budget)", mpos, src)
 			c.Check(dm.OptsOK, "DEC.flags", m.Q()+" unmarshal options", "options = runtime.UnmarshalInputToOptions(input); every nested decode uses options.Unmarshal", "options are not derived from the input by runtime.UnmarshalInputToOptions", mpos, src)
 			// default arm
 			if dm.Default == nil {
@@ -232,12 +236,19 @@ func RunDec(c *core.Ctx) {
 					if id, ok := t.Fun.(*ast.Ident); ok && id.Name == "panic" {
 						nPanic++
 					}
+				case *ast.AssignStmt:
+					// comma-ok assertions cannot panic
+					if len(t.Lhs) == 2 && len(t.Rhs) == 1 {
+						if _, isTA := ast.Unparen(t.Rhs[0]).(*ast.TypeAssertExpr); isTA {
+							nAssert--
+						}
+					}
 				case *ast.TypeAssertExpr:
 					nAssert++
 				}
 				return true
 			})
-			c.Check(nPanic == 0 && nAssert == 1, "BND.nopanic", m.Q()+" unmarshal closure", "no panic call; the only type assertion is the prologue's message cast",
+			c.Check(nPanic == 0 && nAssert == 1, "BND.nopanic", m.Q()+" unmarshal closure", "no panic call; the only single-result type assertion is the prologue's message cast",
 				fmt.Sprintf("%d panic call(s) and %d type assertion(s) in the decoder", nPanic, nAssert), mpos, src)
 			// ALIAS.nowrite: the decoder never stores into its input
 			var wr []string
@@ -334,11 +345,12 @@ func RunDec(c *core.Ctx) {
 							c.Ok("DEC.mapaccum", f.Q(), "key and value are assigned (last one wins) per record", pos, src)
 						}
 						if f.Desc.MapValue().Kind() == protoreflect.MessageKind {
-							if reNilInit.MatchString(eff) {
+							eff = normaliseMapDefault(eff)
+							if reNilInit.MatchString(eff) && !reDefaulted.MatchString(eff) {
 								c.Fail("DEC.mapdefault", f.Q(), "an entry without a value record stores a nil message pointer in the map (the reference stores an empty message); later reads of that entry dereference nil", pos, src)
 							} else {
 								c.Ok("DEC.mapdefault", f.Q(), "missing value defaults to an empty message", pos, src)
-								eff = normaliseMapDefault(eff)
+								eff = reDefaulted.ReplaceAllString(eff, "entry(2: init=nil, set=new($1))")
 							}
 						}
 					}
@@ -350,7 +362,11 @@ func RunDec(c *core.Ctx) {
 							c.Ok("DEC.form", con, "store into the oneof as wrapper of the decoded message", pos, src)
 							continue
 						}
-						c.Undec("DEC.oneofmerge", f.Q(), "oneof message member decode form not recognised: "+eff, pos, src)
+						c.Check(eff == want, "DEC.oneofmerge", f.Q(), "a repeated occurrence of the member merges into the message it already holds; otherwise a new message is decoded",
+							"oneof message member decode form: "+eff+" ; expected: "+want, pos, src)
+						if eff == want {
+							c.Ok("DEC.form", con, want, pos, src)
+						}
 						continue
 					}
 					c.Check(eff == want, "DEC.form", con, want, fmt.Sprintf("decoder does: %s ; the wire spec demands: %s", eff, want), pos, src)
@@ -386,8 +402,17 @@ func RunUnkAccessors(c *core.Ctx) {
 				continue
 			}
 			okG := false
-			if len(gu.Body.List) == 1 {
-				if rs, ok := gu.Body.List[0].(*ast.ReturnStmt); ok && len(rs.Results) == 1 {
+			gl := gu.Body.List
+			// optional nil-receiver guard: if x == nil { return nil }
+			if len(gl) == 2 {
+				if is, ok := gl[0].(*ast.IfStmt); ok && is.Else == nil && len(is.Body.List) == 1 && types.ExprString(is.Cond) == gu.Recv.List[0].Names[0].Name+" == nil" {
+					if rs, ok := is.Body.List[0].(*ast.ReturnStmt); ok && len(rs.Results) == 1 && types.ExprString(rs.Results[0]) == "nil" {
+						gl = gl[1:]
+					}
+				}
+			}
+			if len(gl) == 1 {
+				if rs, ok := gl[0].(*ast.ReturnStmt); ok && len(rs.Results) == 1 {
 					if sel, ok := ast.Unparen(rs.Results[0]).(*ast.SelectorExpr); ok && sel.Sel.Name == "unknownFields" {
 						okG = true
 					}
